@@ -108,17 +108,14 @@ func (s *spec) conflict(o op) bool {
 }
 
 // abs computes the per-cell view of an implementation dump; error if one owner
-// holds a cell twice, a range is empty/misaligned or the list is unsorted.
-// (Whether adjacent same-type entries are merged is representation, not
-// property: it is compared with the model, not judged by the monitor.)
+// holds a cell twice or a range is empty/misaligned.  (List order and
+// whether adjacent same-type entries are merged are representation, not
+// property: they are compared with the model, not judged by the monitor.)
 func (s *spec) abs(ls []virtual.ByteRangeLock[int]) (map[int][]int, string) {
 	out := map[int][]int{}
-	for k, l := range ls {
+	for _, l := range ls {
 		if l.Start >= l.End {
 			return nil, fmt.Sprintf("empty range %s", showLock(&l))
-		}
-		if k > 0 && ls[k-1].Start > l.Start {
-			return nil, "list not sorted by start"
 		}
 		if l.Type != virtual.ByteRangeLockTypeLockedExclusive && l.Type != virtual.ByteRangeLockTypeLockedShared {
 			return nil, "entry with unlocked type"
@@ -367,16 +364,45 @@ func main() {
 	}
 	defer drv.Close()
 
-	report := func(ops []op, out outcome) {
-		fails := func(cand []string) bool {
-			r := run(parseAll(cand), drv)
-			if out.monitor != "" {
-				return r.monitor != ""
+	// search: after a model/implementation disagreement keep going with the per-byte
+	// oracle alone (same history, then random continuations) to find a history on which
+	// the implementation itself violates the property.
+	search := func(ops []op, seed uint64) ([]op, bool) {
+		if r := run(ops, nil); r.monitor != "" {
+			return ops, true
+		}
+		for try := 0; try < 200; try++ {
+			rng := hx.NewRand(seed*7919 + uint64(try))
+			ext := append(append([]op(nil), ops...), gen(rng, 40+rng.Intn(160))...)
+			// keep the owners of the prefix so that the continuation interacts with it
+			for i := len(ops); i < len(ext); i++ {
+				ext[i].owner = 100 + rng.Intn(5)
 			}
-			return r.mismatch != ""
+			if r := run(ext, nil); r.monitor != "" {
+				return ext, true
+			}
+		}
+		return nil, false
+	}
+
+	report := func(ops []op, out outcome) {
+		if out.monitor == "" && out.mismatch != "" {
+			if ext, ok := search(ops, o.Seed); ok {
+				res.Count("mismatch-turned-into-failing-input")
+				ops, out = ext, run(ext, nil)
+			}
+		}
+		fails := func(cand []string) bool {
+			if out.monitor != "" {
+				return run(parseAll(cand), nil).monitor != ""
+			}
+			return run(parseAll(cand), drv).mismatch != ""
 		}
 		min := hx.Shrink(strs(ops), fails)
 		r := run(parseAll(min), drv)
+		if out.monitor != "" {
+			r = run(parseAll(min), nil)
+		}
 		f := hx.Finding{Property: "C20", History: min}
 		if r.monitor != "" {
 			f.Kind, f.What, f.Name = "violation", r.monitor, "C20 per-byte oracle on ByteRangeLockSet"
